@@ -5,37 +5,46 @@ import (
 	"os"
 )
 
-// Suspects is the clearly labelled stream of candidate findings: hand-written hostile inputs for
-// the sites named in DESIGN.md (C04) that the repairs did not cover.  Each input is an ordinary
-// input of the executor: if the code handles it with an error nothing is reported.
+// Suspects is the clearly labelled stream of hand-written hostile inputs for the sites named in
+// DESIGN.md (C04).  Class "suspect:<name>": a finding that is still open (see
+// findings/known_findings.txt).  Class "fixed:<commit>:<name>": a finding that was repaired by that
+// commit; the input stays as a regression scenario and must end in an error — a crash or hang of it
+// carries its own signature and can never be covered by a known finding of the same site.
 func Suspects(g *Gen) (early, lateIn []Input) {
 	gz := g.Bases[0]
 	body := gz.Blob[:len(gz.Blob)-51]
 	var out, late []Input
+	cls := func(name string) string {
+		if len(name) > 6 && name[:6] == "fixed:" {
+			return name
+		}
+		return "suspect:" + name
+	}
 	add := func(name string, in Input) {
 		in.Suspect = name
-		in.Class = "suspect:" + name
+		in.Class = cls(name)
 		out = append(out, in)
 	}
 	// inputs expected to end in a loop go last: after a few hangs of one target the executor stops
 	// running that target, which must not mask the crash-type suspects
 	addLate := func(name string, in Input) {
 		in.Suspect = name
-		in.Class = "suspect:" + name
+		in.Class = cls(name)
 		late = append(late, in)
 	}
+	mustDB := func(in Input) Input { in.MustErr, in.MustErrDB = true, true; return in }
 	toc := func(ents ...Ent) []byte { return tocText(1, ents) }
 	reg := func() Ent { return cloneEnts(gz.Entries)[entIdx(gz.Entries, "d/a.txt")] }
 
 	// TOC JSON documents the decoder turns into nil pointers
-	add("toc-json-null", g.blobInput(gz, "", []byte(`null`)))
-	add("toc-entries-null-element", g.blobInput(gz, "", []byte(`{"version":1,"entries":[null]}`)))
+	add("fixed:18babb7:toc-json-null", markMust(g.blobInput(gz, "", []byte(`null`))))
+	add("fixed:18babb7:toc-entries-null-element", markMust(g.blobInput(gz, "", []byte(`{"version":1,"entries":[null]}`))))
 	// gzip footer whose 16 hex characters carry a sign: negative TOC offset = "external TOC"
-	add("gz-footer-negative-offset", Input{Kind: "blob", Data: append(append([]byte{}, body...), GzipFooter(StargzExtra("-000000000000001"))...)})
+	add("fixed:18babb7:gz-footer-negative-offset", mustDB(Input{Kind: "blob", Data: append(append([]byte{}, body...), GzipFooter(StargzExtra("-000000000000001"))...)}))
 	// hardlink to an ancestor that is not of type dir (but gets children): cyclic tree
 	add("hardlink-to-nondir-ancestor", markMust(g.blobInput(gz, "", toc(E("p", "reg"), E("p/x", "hardlink", "linkName", "p")))))
 	// sizes: reg entry whose size/chunkSize make initFields allocate Size/ChunkSize+1 slots
-	add("huge-size-small-chunksize", g.blobInput(gz, "", toc(E("f", "reg", "size", num("4611686018427387904"), "chunkSize", 1, "offset", 10))))
+	add("fixed:18babb7:huge-size-small-chunksize", g.blobInput(gz, "", toc(E("f", "reg", "size", num("4611686018427387904"), "chunkSize", 1, "offset", 10))))
 	// huge chunk size reaching b.Grow / bufio.NewReaderSize / make in fs/reader
 	r1 := reg()
 	r1["size"], r1["chunkSize"] = num("4611686018427387904"), num("4611686018427387904")
@@ -47,26 +56,26 @@ func Suspects(g *Gen) (early, lateIn []Input) {
 	// len(p), the validation of 42545b8 passes and ip[lower:chunkSize-upper] has bounds near +-2^63
 	// (Lean: SV.Props.C04.read_arith_total_full_fails)
 	zeros100 := "sha256:cd00e292c5970d3c5e2f0ffa5171e555bc46bfc4faddfb4a418b6840b86e79a3"
-	add("negative-chunkoffset-wrap", g.blobInput(gz, "", toc(E("d/", "dir"),
+	add("fixed:95288ee:negative-chunkoffset-wrap", g.blobInput(gz, "", toc(E("d/", "dir"),
 		E("d/w", "reg", "size", 100, "offset", reg()["offset"], "chunkOffset", num("-9223372036854775798"), "digest", zeros100, "chunkDigest", zeros100))))
 	// chunkOffset+chunkSize overflow
 	r3 := reg()
-	addLate("chunk-offset-plus-size-overflow", g.blobInput(gz, "", toc(E("d/", "dir"), r3,
+	addLate("fixed:95288ee:chunk-offset-plus-size-overflow", g.blobInput(gz, "", toc(E("d/", "dir"), r3,
 		E("d/a.txt", "chunk", "offset", r3["offset"], "chunkOffset", num("9223372036854775800"), "chunkSize", 100))))
 	// chunk beyond the file size: the store's ReadAt returns 0 bytes, file.ReadAt does not advance
 	r4 := reg()
 	zeros5 := "sha256:8855508aade16ec573d21e6a485dfd0a7624085c1a14b5ecdd6485de0c6839a4" // sha256 of 5 zero bytes
-	addLate("chunk-beyond-file-size", g.blobInput(gz, "", toc(E("d/", "dir"), r4,
+	addLate("fixed:95288ee:chunk-beyond-file-size", g.blobInput(gz, "", toc(E("d/", "dir"), r4,
 		E("d/a.txt", "chunk", "offset", r4["offset"], "chunkOffset", 4, "chunkSize", 4, "chunkDigest", r4["chunkDigest"]),
 		E("d/a.txt", "chunk", "offset", r4["offset"], "chunkOffset", 20, "chunkSize", 5, "chunkDigest", zeros5))))
 	// single-chunk file whose chunkOffset lies behind its end: the store's ReadAt delivers 0 bytes with
 	// io.EOF, file.ReadAt accepts that and asks for the same chunk again, for ever
 	// (Lean: SV.Props.C04.read_progress_full_fails)
-	addLate("nonadvancing-read", g.blobInput(gz, "", toc(E("d/", "dir"),
+	addLate("fixed:95288ee:nonadvancing-read", g.blobInput(gz, "", toc(E("d/", "dir"),
 		E("d/w", "reg", "size", 1, "offset", reg()["offset"], "chunkOffset", 50))))
 	// zero-sized chunk at EOF (implicit chunk size = size - chunkOffset = 0): passthrough collection loop
 	r5 := reg()
-	addLate("zero-chunk-at-eof", g.blobInput(gz, "", toc(E("d/", "dir"), r5,
+	addLate("fixed:95288ee:zero-chunk-at-eof", g.blobInput(gz, "", toc(E("d/", "dir"), r5,
 		E("d/a.txt", "chunk", "offset", r5["offset"], "chunkOffset", 4, "chunkSize", 6),
 		E("d/a.txt", "chunk", "offset", r5["offset"], "chunkOffset", 10))))
 	// overlapping chunk table + passthrough batches
@@ -77,25 +86,38 @@ func Suspects(g *Gen) (early, lateIn []Input) {
 	// negative chunk sizes walking backwards in the prefetch loop
 	r7 := reg()
 	r7["chunkSize"] = 5
-	addLate("chunk-size-walks-back", g.blobInput(gz, "", toc(E("d/", "dir"), r7,
+	addLate("fixed:95288ee:chunk-size-walks-back", g.blobInput(gz, "", toc(E("d/", "dir"), r7,
 		E("d/a.txt", "chunk", "offset", r7["offset"], "chunkOffset", 5, "chunkSize", -5))))
 	// TOC offset beyond the blob (the db store has its own copy of Open's arithmetic)
-	add("toc-offset-beyond-blob", Input{Kind: "blob", Data: append(append([]byte{}, body...), GzipFooter(StargzExtra(fmt.Sprintf("%016x", int64(1)<<40)))...)})
+	add("fixed:61ee3c1:toc-offset-beyond-blob", mustDB(Input{Kind: "blob", Data: append(append([]byte{}, body...), GzipFooter(StargzExtra(fmt.Sprintf("%016x", int64(1)<<40)))...)}))
 	// zstd footer with a huge compressed length (allocation before the read fails)
 	zb := g.Bases[1]
 	zbody := zb.Blob[:len(zb.Blob)-48]
 	for _, cl := range []uint64{1 << 40, 1 << 62, 1<<63 + 5} {
-		add(fmt.Sprintf("zstd-compressed-length-%d", cl), Input{Kind: "blob", Note: "zstd",
-			Data: append(append([]byte{}, zbody...), skippable(ZstdFooter(uint64(len(zb.Payload))+8, cl, 10, true))...)})
+		in := Input{Kind: "blob", Note: "zstd",
+			Data: append(append([]byte{}, zbody...), skippable(ZstdFooter(uint64(len(zb.Payload))+8, cl, 10, true))...)}
+		if cl < 1<<63 {
+			in = mustDB(in) // as int64 it is positive and larger than the blob; 2^63+5 is negative = "use the default size"
+		}
+		add(fmt.Sprintf("fixed:61ee3c1:zstd-compressed-length-%d", cl), in)
 	}
 	// deep trees
+	// deep trees: around the depth bound of the prefetch walk (maxWalkDepth = 10000).  Generated inputs
+	// stay below 1000 levels: the bolt store is cubic in the depth (known finding), every deep input
+	// costs it a hang.
+	addLate("deep-path-10001", g.blobInput(gz, "", toc(E(deepName(10001, "f"), "reg"))))
 	if os.Getenv("VERIF_TIER") == "thorough" {
+		addLate("deep-path-9999", g.blobInput(gz, "", toc(E(deepName(9999, "f"), "reg"))))
 		addLate("deep-path-20000", g.blobInput(gz, "", toc(E(deepName(20000, "f"), "reg"))))
 	}
-	addLate("deep-path-10001", g.blobInput(gz, "", toc(E(deepName(10001, "f"), "reg"))))
 	// hardlinks in the db store: cycles and links to directories
-	add("hardlink-cycle", markMust(g.blobInput(gz, "", toc(E("a", "hardlink", "linkName", "b"), E("b", "hardlink", "linkName", "a")))))
-	add("hardlink-to-parent-dir", markMust(g.blobInput(gz, "", toc(E("d/", "dir"), E("d/x", "hardlink", "linkName", "d")))))
-	add("hardlink-to-root", markMust(g.blobInput(gz, "", toc(E("d/", "dir"), E("d/x", "hardlink", "linkName", "")))))
+	add("fixed:588493d:hardlink-cycle2", mustDB(g.blobInput(gz, "", toc(E("a", "hardlink", "linkName", "b"), E("b", "hardlink", "linkName", "a")))))
+	add("fixed:a0e1c6d:hardlink-to-parent-dir", mustDB(g.blobInput(gz, "", toc(E("d/", "dir"), E("d/x", "hardlink", "linkName", "d")))))
+	add("fixed:a0e1c6d:hardlink-to-root", mustDB(g.blobInput(gz, "", toc(E("d/", "dir"), E("d/x", "hardlink", "linkName", "")))))
+	// a link to a directory is refused whatever the directory is (588493d), also an empty, unrelated one
+	add("fixed:588493d:hardlink-to-empty-unrelated-dir", mustDB(g.blobInput(gz, "", toc(E("e/", "dir"), E("x", "hardlink", "linkName", "e")))))
+	// two cooperating links to directories that are not ancestors of the links
+	add("fixed:588493d:hardlinks-to-each-others-parent", mustDB(g.blobInput(gz, "", toc(E("a/", "dir"), E("b/", "dir"),
+		E("a/l", "hardlink", "linkName", "b"), E("b/m", "hardlink", "linkName", "a")))))
 	return out, late
 }
